@@ -20,9 +20,7 @@ def obligations(tier):
            Ob('cyclic_visitor', 'dispatch', 'h_cyclic', unwind=6, bound='all visitable types')]
     # functor_dispatcher over basic_fast_dispatcher (h_fast / w_fast, kept for native translation validation only): one registration history with symbolic
     # dynamic types gave no verdict within 300 s (nested std::vector<std::function> reallocation paths), so it is not an obligation and not claimed
-    obs += [Ob('fast2', 'tab', 'h_fast2', unwind=6, bound='3 registrations over 9 cells, all dynamic type pairs', min_witnesses=3, timeout=600),
-            Ob('fast3', 'tab', 'h_fast3', unwind=6, bound='2 registrations over 6 triples, all dynamic type triples', min_witnesses=2, timeout=600)]
     obs += [Ob('functor', 'tab', 'h_functor', unwind=10, mem_unwind=40, bound='3 insert/erase steps over 9 cells, both casting policies, all dynamic type pairs', min_witnesses=3, timeout=600),
-            Ob('map', 'tab', 'h_map', unwind=6, bound='3 insert/erase steps over 9 cells, all dynamic type pairs', min_witnesses=3, timeout=600)]
-    if tier == 'thorough': obs += [Ob(o.name + '@cadical', o.unit, o.fn, unwind=6, backend='cadical') for o in list(obs)]
+            Ob('map2', 'tab', 'h_map', defines=['STEPS2'], unwind=6, mem_unwind=40, bound='2 insert/erase steps over 9 cells, all dynamic type pairs', min_witnesses=2, timeout=900)]
+    if tier == 'thorough': obs += [Ob(o.name + '@cadical', o.unit, o.fn, defines=o.defines, unwind=o.unwind, mem_unwind=o.mem_unwind, backend='cadical', min_witnesses=o.min_witnesses, timeout=1800) for o in list(obs)]
     return obs
